@@ -91,8 +91,16 @@ def check_col(prog: Program, res: Result) -> None:
             if len(names) >= 2:
                 rown, coln = names[-2], names[-1]
                 for st in ast.walk(z):
-                    if isinstance(st, ast.Assign) and "track_id" in norm(st.targets[0]) and norm(st.value) == coln and rown in astq.names_in(st.targets[0]):
-                        ok = True
+                    if isinstance(st, ast.Assign) and isinstance(st.targets[0], ast.Attribute) and st.targets[0].attr == "track_id" and norm(st.value) == coln:
+                        # the object written: current_instances[row], possibly through a named intermediate
+                        obj = astq.expand_at(u.node, st.targets[0].value, st, keep=[rown, coln])
+                        if isinstance(obj, ast.Subscript) and norm(obj.slice) == rown:
+                            ok = True
+                    # ... or the track-id list of the frame's instances, at the matched row: instances.track_ids[row] = col
+                    if isinstance(st, ast.Assign) and isinstance(st.targets[0], ast.Subscript) and norm(st.value) == coln and norm(st.targets[0].slice) == rown:
+                        arr = astq.expand_at(u.node, st.targets[0].value, st, keep=[rown, coln])
+                        if isinstance(arr, ast.Attribute) and arr.attr == "track_ids":
+                            ok = True
         res.ob("C10-col", ok, u.qualname, "matched (row, col) -> instance[row].track_id = col",
                "the matched column index is not stored as the track id of the matched row's instance", u.where)
     res.floor("C10-col", 9)
